@@ -17,6 +17,7 @@ import (
 	"fmt"
 
 	"github.com/jamespfennell/gtfs"
+	gtfsrt "github.com/jamespfennell/gtfs/proto"
 )
 
 func c07Harness(nPairs int, extras, conflicts bool) Harness {
@@ -82,11 +83,79 @@ func c07Harness(nPairs int, extras, conflicts bool) Harness {
 	}
 }
 
+// c07IdentifierOrder: trips whose identifiers differ in exactly one component of the key
+// (or are equal up to a later component), in every order of the entities: Trips must come out
+// strictly increasing in the documented order, and identical for every permutation.
+func c07IdentifierOrder(c *Ctx) {
+	u0, u1 := uint32(0), uint32(1)
+	added := gtfsrt.TripDescriptor_ADDED
+	pool := []*gtfsrt.TripDescriptor{
+		{TripId: sp("T"), RouteId: sp("R")},
+		{TripId: sp("T"), RouteId: sp("R"), DirectionId: &u0},
+		{TripId: sp("T"), RouteId: sp("R"), DirectionId: &u1},
+		{TripId: sp("T"), RouteId: sp("R"), StartTime: sp("10:00:00")},
+		{TripId: sp("T"), RouteId: sp("R"), StartTime: sp("09:00:00")},
+		{TripId: sp("T"), RouteId: sp("R"), StartDate: sp("20240102")},
+		{TripId: sp("T"), RouteId: sp("R"), StartDate: sp("20240101")},
+		{TripId: sp("T"), RouteId: sp("R"), StartTime: sp("10:00:00"), StartDate: sp("20240101")},
+		{TripId: sp("T"), RouteId: sp("R"), ScheduleRelationship: &added},
+		{TripId: sp("T"), RouteId: sp("Q")},
+		{TripId: sp("S"), RouteId: sp("Z")},
+		{TripId: sp("T")},
+	}
+	// choose 4 distinct pool entries (ascending indices), then every order of them
+	var idx []int
+	last := -1
+	for k := 0; k < 4; k++ {
+		remaining := len(pool) - (last + 1) - (3 - k)
+		j := last + 1 + c.Free(fmt.Sprintf("pick[%d]", k), remaining)
+		idx = append(idx, j)
+		last = j
+	}
+	perm := c.Perm("order", 4)
+	m := newFeed(cp(&tsAlphabet[0]))
+	for _, pi := range perm {
+		j := idx[pi]
+		m.Entity = append(m.Entity, &gtfsrt.FeedEntity{Id: sp(fmt.Sprintf("e%d", j)), TripUpdate: &gtfsrt.TripUpdate{Trip: cloneTD(pool[j]),
+			StopTimeUpdate: []*gtfsrt.TripUpdate_StopTimeUpdate{{StopId: sp(fmt.Sprintf("S%d", j))}}}})
+	}
+	b := marshalFeed(m)
+	key := fmt.Sprint(idx)
+	c.Input(hash64(string(b)), true, func() string { return "pool entries " + key + " order=" + entityOrder(m) + "\n" + feedText(m) })
+	c.SetMapMode(mapFree)
+	r, err, ok := parseRT(c, b, &gtfs.ParseRealtimeOptions{Timezone: zoneNY})
+	c.SetMapMode(mapFixed)
+	if !ok {
+		return
+	}
+	if err != nil {
+		c.Fail("valid-message-rejected", "%v", err)
+		return
+	}
+	c.Steps(4)
+	if len(r.Trips) != 4 {
+		c.Fail("trips-lost-or-duplicated", "4 distinct trip descriptors, %d trips", len(r.Trips))
+	}
+	for i := 1; i < len(r.Trips); i++ {
+		a, bb := r.Trips[i-1].ID, r.Trips[i].ID
+		if !refTripLess(a, bb) {
+			c.Fail("trips-not-strictly-sorted", "Trips[%d]=%s is not below Trips[%d]=%s in the documented identifier order", i-1, dumpTripID(a), i, dumpTripID(bb))
+		}
+		if !a.Less(bb) || bb.Less(a) {
+			c.Fail("trips-not-sorted-under-Less", "Trips[%d]=%s / Trips[%d]=%s violate TripID.Less", i-1, dumpTripID(a), i, dumpTripID(bb))
+		}
+	}
+	got := dumpRealtime(r, rtDumpOpts{links: true})
+	c.Outcome(got)
+	c.Relate("identifier-order-independence", key, got)
+	c.Witness("identifiers_equal_up_to_one_component")
+}
+
 func init() {
 	register(&Check{
 		ID:    "C07",
 		Level: "model_checking",
-		Rule: "association messages (1 pair + extras, 2 pairs; thorough: 2 pairs + extras) in ALL n! entity orders (n<=5; 4 orders beyond) x all map rotations, plus the same with conflicting duplicates (invariants only); " +
+		Rule: "association messages (1 pair + extras, 2 pairs; thorough: 2 pairs + extras) in ALL n! entity orders (n<=5; 4 orders beyond) x all map rotations, plus the same with conflicting duplicates (invariants only); plus every 4-subset of 12 trip descriptors that differ in one identifier component each (direction, start time, start date, schedule relationship, route, id) in all 24 orders; " +
 			"non-trivial = distinct messages with >= 2 entities; oracles = cross-execution relation (message up to order -> dump), order-independent reference, sortedness/uniqueness invariants",
 		Assumptions: []string{"the identifier order is the documented field order (id, route, direction, start time, start date, schedule relationship)"},
 		Scenarios: func(tier string) []*Scenario {
@@ -94,6 +163,7 @@ func init() {
 				{Name: "one-pair+extras", Bound: -1, Run: c07Harness(1, true, false)},
 				{Name: "two-pairs", Bound: -1, Run: c07Harness(2, false, false)},
 				{Name: "one-pair+conflicts", Bound: -1, Run: c07Harness(1, false, true)},
+				{Name: "identifier-order", Bound: -1, Run: c07IdentifierOrder},
 			}
 			if tier == "thorough" {
 				s = append(s, &Scenario{Name: "two-pairs+extras", Bound: -1, Run: c07Harness(2, true, false)},
